@@ -74,6 +74,7 @@ Proof.
   - destruct (e_st (ent s c)); try discriminate.
     destruct (closed s && negb (loaded_on (loops s (e_host (ent s c))) i)); try discriminate. inv_some. exact P.
   - destruct (e_st (ent s c)); try discriminate. destruct (closed s); try discriminate. inv_some. exact P.
+  - destruct (e_st (ent s c)); try discriminate. inv_some. exact P.
 Qed.
 
 Lemma run_ep_is : forall ls s s' h E, run s ls = Some s' -> epoch s = E -> epoch s' = E ->
